@@ -252,12 +252,32 @@ func c05Property(rt *rapid.T, col *stats.Collector, ampOpen bool, maxDepth int, 
 		labels := []string{"type:" + typName, fmt.Sprintf("depth:%d", depth)}
 		if typ == gast.TBool && rapid.IntRange(0, 7).Draw(rt, "shortcircuit") == 0 {
 			fail := c05Failing[rapid.IntRange(0, len(c05Failing)-1).Draw(rt, "failing")]()
+			// the deciding left operand: a compound expression, or a boolean behind a pointer / inside an interface
+			// value / a top-level variable / a JSON member, read directly
+			wrapped := rapid.IntRange(0, 4).Draw(rt, "sc_wrapped")
 			if rapid.Bool().Draw(rt, "sc_or") {
-				expr = &gast.Bin{Op: gast.OpOr, L: &gast.Bin{Op: gast.OpOr, L: expr, R: gast.B(true)}, R: fail}
+				var l gast.Expr = &gast.Bin{Op: gast.OpOr, L: expr, R: gast.B(true)}
+				switch wrapped {
+				case 1:
+					l = gast.P("F", "PTrue")
+				case 2:
+					l = gast.P("F", "ATrue")
+				}
+				expr = &gast.Bin{Op: gast.OpOr, L: l, R: fail}
 			} else {
-				expr = &gast.Bin{Op: gast.OpAnd, L: &gast.Bin{Op: gast.OpAnd, L: expr, R: gast.B(false)}, R: fail}
+				var l gast.Expr = &gast.Bin{Op: gast.OpAnd, L: expr, R: gast.B(false)}
+				switch wrapped {
+				case 1:
+					l = gast.P("F", "PFalse")
+				case 2:
+					l = gast.P("F", "AFalse")
+				}
+				expr = &gast.Bin{Op: gast.OpAnd, L: l, R: fail}
 			}
 			labels = append(labels, "shortcircuit_failing_operand")
+			if wrapped == 1 || wrapped == 2 {
+				labels = append(labels, "shortcircuit_decided_by_wrapped_boolean")
+			}
 		}
 		// explicit (shrinkable) values for the locations the expression reads
 		used := map[string]gen.PathInfo{}
